@@ -38,13 +38,14 @@ func init() {
 }
 
 type captureHandler struct {
-	records []string
+	disabled bool // Enabled reports false for every level: the application discards its logs
+	records  []string
 	msgs    []string
 	route   string
 	params  []string
 }
 
-func (h *captureHandler) Enabled(context.Context, slog.Level) bool { return true }
+func (h *captureHandler) Enabled(context.Context, slog.Level) bool { return !h.disabled }
 func (h *captureHandler) Handle(_ context.Context, r slog.Record) error {
 	var sb strings.Builder
 	sb.WriteString(r.Message)
@@ -182,6 +183,32 @@ func runRecovery(fields []string) string {
 	if fields[1] == "T" {
 		return runRecoveryTxn(fields)
 	}
+	res := runRecoveryP(fields, false)
+	// containment does not depend on the log handler: with a handler that discards everything (Enabled = false) the
+	// same request ends the same way - same return / re-panic, same response, same follow-ups (only the record is gone)
+	jOf := func(s string) string {
+		for _, f := range strings.Split(s, "\t") {
+			if strings.HasPrefix(f, "J=") {
+				// (without the record, which the disabled handler does not get)
+				if a := strings.Index(f, ",rec="); a >= 0 {
+					if b := strings.Index(f[a+1:], ","); b >= 0 {
+						f = f[:a] + f[a+1+b:]
+					}
+				}
+				return f
+			}
+		}
+		return ""
+	}
+	if !strings.Contains(res, "\tO=") {
+		if j1, j2 := jOf(res), jOf(runRecoveryP(fields, true)); j1 != j2 {
+			res += "\tO=with a log handler that is disabled for every level the request ends differently: " + j2 + " instead of " + j1
+		}
+	}
+	return res
+}
+
+func runRecoveryP(fields []string, logDisabled bool) string {
 	val := recMakeValue(fields[2])
 	progress, scope := fields[3], fields[4]
 	type hv struct{ name, value string }
@@ -192,7 +219,7 @@ func runRecovery(fields []string) string {
 			hdrs = append(hdrs, hv{unhx(k), unhx(v)})
 		}
 	}
-	lh := &captureHandler{}
+	lh := &captureHandler{disabled: logDisabled}
 	recov := fox.CustomRecoveryWithLogHandler(lh, fox.DefaultHandleRecovery)
 	eventsAtPanic := -1
 	var rw *recWriter
@@ -237,6 +264,13 @@ func runRecovery(fields []string) string {
 		f, err = fox.New(fox.WithMiddleware(recov), fox.WithIgnoreTrailingSlash(true))
 		if err == nil {
 			_, err = f.Handle(http.MethodGet, "/r/{id}/", doPanic)
+		}
+		// branches the matcher explores (and abandons) after it has noted the slash-adjusted candidate: what they
+		// recorded must not show up as the parameters of the route that panicked
+		for _, p := range []string{"/r/{id}/x", "/{a}/42/y"} {
+			if err == nil {
+				_, err = f.Handle(http.MethodGet, p, okHandler)
+			}
 		}
 	case "routehost":
 		// a hostname route
@@ -298,6 +332,11 @@ func runRecovery(fields []string) string {
 	req := newReq(method, "example.com", path)
 	for _, h := range hdrs {
 		req.Header[h.name] = []string{h.value}
+	}
+	if len(hdrs) > 0 && len(hdrs[0].name)%2 == 0 && scope != "routehost" {
+		// a Host with a lone carriage return (a hand-built request; the net/http server would refuse it): the header
+		// lines of the dump still end at "\r\n" only
+		req.Host = "exa\rmple.com"
 	}
 	rw = newRecWriter()
 	out := "returned"
@@ -371,7 +410,12 @@ func runRecovery(fields []string) string {
 		leakBit = "1"
 	}
 	i := fmt.Sprintf("out=%s,logged=%s,status=%d,touched=%s,redacted=%s,route=%s,params=%s,reqline=%s,%s", out, logged, status, touched, redS, route, params, reqline, fu)
-	j := fmt.Sprintf("out=%s,status=%d,touched=%s,leak=%s,%s", out, status, touched, leakBit, fu)
+	// the record of a recovered panic names the route, the parameters and the request line ("-" when nothing was logged)
+	recS := "-"
+	if len(lh.records) > 0 {
+		recS = route + "/" + params + "/" + reqline
+	}
+	j := fmt.Sprintf("out=%s,status=%d,touched=%s,leak=%s,rec=%s,%s", out, status, touched, leakBit, recS, fu)
 	res := "I=" + i + "\tJ=" + j
 	if leak != "" {
 		res += "\tO=" + leak
@@ -521,6 +565,22 @@ func runRecoveryTxn(fields []string) string {
 			_, err = f.Handle(http.MethodGet, "/single/{x}", okHandler, fox.WithMiddleware(panicMw))
 		case "update":
 			_, err = f.Update(http.MethodGet, "/seed/a", okHandler, fox.WithMiddleware(panicMw))
+		case "musthandle":
+			_ = f.MustHandle(http.MethodGet, "/single/{x}", okHandler, fox.WithMiddleware(panicMw))
+		case "musthandle-dup":
+			// MustHandle panics by design when the route exists; an application that recovers from it (a plugin that
+			// registers its routes twice) must find the router usable
+			func() {
+				defer func() {
+					if p := recover(); p != nil {
+						if e, ok := p.(error); ok && errors.Is(e, fox.ErrRouteExist) {
+							panic(val)
+						}
+						panic(p)
+					}
+				}()
+				_ = f.MustHandle(http.MethodGet, "/seed/a", okHandler)
+			}()
 		}
 		if mode == "g" {
 			out = "returned"
@@ -647,7 +707,7 @@ func genRecovery(r *Rng, tier string, n int, emit func(string)) {
 			emitted++
 		}
 	}
-	for _, kind := range []string{"handle", "update"} {
+	for _, kind := range []string{"handle", "update", "musthandle", "musthandle-dup"} {
 		for _, v := range []string{"error", "str", "abort", "nil"} {
 			emit("recovery\tT\t" + kind + "\t" + v + "\t0\tp0")
 			emitted++
